@@ -4,5 +4,5 @@ import os
 _spec = importlib.util.spec_from_file_location("_chain", os.path.join(os.path.dirname(__file__), "_chain.py"))
 _m = importlib.util.module_from_spec(_spec)
 _spec.loader.exec_module(_m)
-pre_build = _m.pre_build_both
+pre_build = _m.pre_build_repr
 pre_checks = _m.pre_checks_repr
